@@ -45,9 +45,9 @@ fn judge(case: Case, tape: &[u8], stream: &str) {
 }
 
 /// bytes 0..8: configuration and cursor seeds; rest: the text (lossy UTF-8).
-pub fn text_target(data: &[u8]) {
+pub fn decode_text(data: &[u8], prop_id: &str) -> Option<Case> {
     if data.len() < 8 {
-        return;
+        return None;
     }
     let mut t = Tape::new(&data[..8]);
     let mut cfg = Cfg::gen_unsaturated(&mut t);
@@ -56,29 +56,46 @@ pub fn text_target(data: &[u8]) {
     cfg.wrap_column = cfg.wrap_column.max(30);
     let input = String::from_utf8_lossy(&data[8..]).into_owned();
     if input.len() > 4096 {
-        return;
+        return None;
     }
     // keep clear of the open stack-overflow finding
     if input.len() > 400 && props::c04::nesting_depth(&input) > 300 {
-        return;
+        return None;
     }
     let mut c = Case::text("fuzz-text", input, cfg);
-    let st = state();
-    if matches!(st.prop.id(), "C04" | "C15") {
+    if matches!(prop_id, "C04" | "C15") {
         let mut t2 = Tape::new(&data[4..8]);
         c.cursors = crate::props::c15::gen_token_cursors(&mut t2, &c.input);
     }
-    judge(c, data, "fuzz-text");
+    Some(c)
+}
+
+pub fn prog_stream(prop_id: &str) -> &'static str {
+    match prop_id {
+        "C11" => "simple",
+        "C12" => "lits",
+        _ => "prog",
+    }
+}
+
+pub fn decode_prog(data: &[u8], prop: &dyn Prop) -> Option<Case> {
+    if data.len() > 3000 {
+        return None;
+    }
+    let mut t = Tape::new(data);
+    prop.generate(prog_stream(prop.id()), &mut t)
+}
+
+pub fn text_target(data: &[u8]) {
+    let st = state();
+    if let Some(c) = decode_text(data, st.prop.id()) {
+        judge(c, data, "fuzz-text");
+    }
 }
 
 pub fn prog_target(data: &[u8]) {
-    if data.len() > 3000 {
-        return;
-    }
     let st = state();
-    let mut t = Tape::new(data);
-    let stream = if st.prop.id() == "C11" { "simple" } else { "prog" };
-    if let Some(c) = st.prop.generate(stream, &mut t) {
-        judge(c, data, stream);
+    if let Some(c) = decode_prog(data, st.prop) {
+        judge(c, data, prog_stream(st.prop.id()));
     }
 }
